@@ -37,7 +37,12 @@ func (fr *Frame) val(v ssa.Value) Val {
 		return g.constVal(c)
 	case *ssa.Global:
 		p := &Ptr{Kind: pGlobal, Cell: "G$" + pkgName(c.Pkg.Pkg) + "." + c.Name(), Ty: c.Type().(*types.Pointer).Elem()}
-		return Val{T: "gaddr$" + sanitize(pkgName(c.Pkg.Pkg)+"."+c.Name()), S: "Int", Ty: c.Type(), Ptr: p}
+		ga := "gaddr$" + sanitize(pkgName(c.Pkg.Pkg)+"."+c.Name())
+		if !g.vc.declSet[ga] {
+			g.vc.decl(ga, fmt.Sprintf("(declare-const %s Int)", ga))
+			g.vc.decls = append(g.vc.decls, fmt.Sprintf("(assert (> %s 0))", ga))
+		}
+		return Val{T: ga, S: "Int", Ty: c.Type(), Ptr: p}
 	case *ssa.Function:
 		return Val{T: g.funcConst(c), S: "Int", Ty: c.Type(), Clo: &Closure{Fn: c}}
 	case *ssa.Builtin:
